@@ -81,8 +81,8 @@ def correspond(res, tier):
 def search(res, tier, boost=False):
     rng = seed_rng(res.seed, 'C07s')
     curves = ['UnitSquare', 'Circle', 'LShape', 'PiSquare', 'UnitInterval']
-    n_mesh = (3 if tier == 'quick' else 15) * (2 if boost else 1)
-    n_pts = 25 if tier == 'quick' else 120
+    n_mesh = (5 if tier == 'quick' else 25) * (2 if boost else 1)
+    n_pts = 400 if tier == 'quick' else 1500
     worst = dict(inside=0.0, far=0.0, near=0.0, exact=0.0)
     for mi in range(n_mesh):
         cname = curves[mi % len(curves)]
